@@ -371,7 +371,7 @@ pub fn check_eqv(c: &EqvCase, ctx: &mut Ctx) -> CheckResult {
                 let scale = 1.0 + norm_inf(&dp.b) + norm_inf(&dp.q) + dp.a.iter().map(|r| norm_inf(r)).fold(0.0, f64::max);
                 // (diverged: the returned point is huge, or the homogenisation scalar tau has collapsed so that x = x_int/tau diverges)
                 let tau_of = |k: usize| outs[k].trace.last().map(|r| r.tau).unwrap_or(1.0);
-                let diverged = |k: usize| can[k].verdict == Verdict::Solved && (norm_inf(&can[k].x).max(norm_inf(&can[k].z)) > 1e12 * scale || tau_of(k) < 1e-8);
+                let diverged = |k: usize| can[k].verdict == Verdict::Solved && (norm_inf(&can[k].x).max(norm_inf(&can[k].z)) > 1e6 * scale || tau_of(k) < 1e-4);
                 if (diverged(i) || diverged(j)) && known_finding_hit("C05:solved-at-diverged-iterate") {
                     ctx.label("known-finding:solved-at-diverged-iterate");
                     continue;
